@@ -117,9 +117,17 @@ func (r *Recomposer) registerComposer(rt reflect.Type, fun RecomposeFunc) (*comp
 			continue
 		}
 		ft := f.Type
-		switch ft.Kind() {
-		case reflect.Array, reflect.Slice, reflect.Map, reflect.Ptr:
-			ft = ft.Elem()
+		// Unwrap all container and pointer levels so struct types nested in
+		// [][]*T or map[string][]T are registered now and not lazily by the
+		// first Recompose, which would write the composers map while other
+		// goroutines read it.
+		for unwrap := true; unwrap; {
+			switch ft.Kind() {
+			case reflect.Array, reflect.Slice, reflect.Map, reflect.Ptr:
+				ft = ft.Elem()
+			default:
+				unwrap = false
+			}
 		}
 		if _, has := r.composers[fullName(ft)]; has {
 			continue
